@@ -23,16 +23,18 @@ func main() {
 	core.Main(&core.Check{
 		ID:    "C05",
 		Level: "model_checking",
-		Rule: "sweep/forever: one case = one program (workload granularity x nesting of interception wrappers) run in a fresh runtime under EVERY hard cpu limit L in 1..u+1 plus two far limits " +
-			"(u > 2000: 1..200, u-200..u+1 and a stride of (u-400)/400), each L twice; states = distinct (program, L) runs, transitions = executions; " +
-			"amp/*: one case = one library call template x size N x element size under {cpu=1e4, memory=1e5}; " +
-			"non-trivial = the program consumed cpu; distinct = distinct (reference trace, verdict vector) resp. distinct outcomes",
+		Rule: "sweep/forever: one case = one program (workload charge granularity x nesting <= 2 (quick) / 3 (thorough) of 14 interception wrappers) run in a fresh runtime under EVERY hard cpu limit L in 1..u+1 plus two far limits, each L twice " +
+			"(every program has u <= 2000 so no L is skipped; for u > 2000 the rule would be 1..200, u-200..u+1 and a stride of (u-400)/400; forever = non-terminating workloads, L in 1..400); " +
+			"states = distinct (program, L) runs, transitions = executions; programs whose reference run is already condemned (context stack corrupted) are not swept; " +
+			"amp: one case = one library call template x size N (300..2^40, thorough ..2^63-1) x element size {0,1,100} under {cpu=1e4, memory=1e5}; " +
+			"non-trivial = the program consumed cpu; distinct = distinct (reference trace, verdict vector) resp. distinct (template, status, result)",
 		Assumptions: []string{
 			"the oracle for a limited run is the same compiled unit's own run under a limit it never reaches (2^40): killed iff L <= u, identical observation otherwise",
 			"each program is compiled once per worker and the same code unit is loaded into a fresh runtime for every run",
 			"Go finalizers are disabled through the verif finalizer seam, so __gc handlers only run when their context closes (deterministic)",
 			"'no Lua code runs after the kill' is observed through the host callbacks tick()/emit(): each call records the status and consumed cpu of every context of the chain",
-			"amplification: process CPU time (getrusage) of the call must stay below 10 s; a call that spins is reported by the driver's per-case watchdog (60 s) as a hang of its template family",
+			"amplification: process CPU time (getrusage) of one call must stay below 10 s; a watchdog goroutine ends the worker when it does not (the driver attributes the death to the case in flight; its key names the template); the driver's 60 s hang watchdog is only a backstop",
+			"the violation key names the smallest program of the family that shows the same clause through the same code (wrappers are dropped one at a time, then the granularity is simplified), never the limit L",
 			"coroutines left suspended by a kill are closed by the harness after the observation is taken (otherwise their goroutines pin the runtime)",
 		},
 		Init: func(tier string) {
@@ -46,7 +48,7 @@ func main() {
 		Families: func(tier string) []*core.Family {
 			sweepBudget, foreverBudget := 150, 40
 			if tier == "thorough" {
-				sweepBudget, foreverBudget = 1000, 120
+				sweepBudget, foreverBudget = 950, 200
 			}
 			if b, err := strconv.Atoi(os.Getenv("C05_BUDGET")); err == nil && b > 0 { // development aid
 				sweepBudget, foreverBudget = b, b
